@@ -535,6 +535,9 @@ def m_str_parse(ex, n, a, f):
     chars = as_str(ex, a[0])
     rt = ret_ty(f)
     tk = ex.p.kind([t for t in f['targs'] if t is not None][0])
+    if tk == ('adt', 'proc_macro2::TokenStream'):
+        from .tokens import m_ts_from_str
+        return m_ts_from_str(ex, n, a, f)
     s = pystr(StrRef(chars))
     if tk[0] == 'int':
         try:
